@@ -118,12 +118,13 @@ func powerCut(fs *gvfs.MemFS, db raftio.ILogDB) {
 
 // probeRun: every element of batches is ONE SaveRaftState call (the updates of several
 // replicas a step worker saves together). After the last acknowledged call:
-//   torn == nil: power cut, reopen, read back.
-//   torn != nil: the batch torn is being written when the power fails: nothing of it was
-//   fsynced, but the first half of the bytes it appended reached the disk (a torn record at
-//   the tail of the log). Reopen (the store repairs its log), read back, cut the power AGAIN
-//   at once, reopen, read back: everything acknowledged before the first failure must still
-//   be there.
+//
+//	torn == nil: power cut, reopen, read back.
+//	torn != nil: the batch torn is being written when the power fails: nothing of it was
+//	fsynced, but the first half of the bytes it appended reached the disk (a torn record at
+//	the tail of the log). Reopen (the store repairs its log), read back, cut the power AGAIN
+//	at once, reopen, read back: everything acknowledged before the first failure must still
+//	be there.
 func probeRun(ps probeStore, batches [][]upd, torn []upd) (evs []event, err error) {
 	fs := gvfs.NewStrictMem()
 	var db raftio.ILogDB
@@ -507,7 +508,9 @@ func withEnts(u upd, first uint64, terms ...uint64) upd {
 }
 func withMsg(u upd, m msg) upd { u.msgs = append(u.msgs, m); return u }
 
-func grant(from, to, term uint64) msg { return msg{typ: mtRequestVoteResp, to: to, from: from, term: term} }
+func grant(from, to, term uint64) msg {
+	return msg{typ: mtRequestVoteResp, to: to, from: from, term: term}
+}
 func ack(from, to, term, idx uint64) msg {
 	return msg{typ: mtReplicateResp, to: to, from: from, term: term, logindex: idx}
 }
